@@ -537,6 +537,8 @@ def main():
                 except Exception as e:
                     searched[f['obligation']] = {'status': 'search-error: %s' % e, 'harness': h}
                 break
+    for f in viol:
+        if f.get('_search'): searched[f['obligation']] = f['_search']     # thorough tier: the oracle run already holds the replayed input
     for i, f in enumerate(viol):
         sr = searched.get(f['obligation'])
         p = write_replay(prop, f, {'cmd': f.get('cmd', '')}, i, sr)
